@@ -665,6 +665,7 @@ func (p *Proxy) connect(req *http.Request) (*http.Response, net.Conn, *bufio.Rea
 
 		res, err := http.ReadResponse(pbr, req)
 		if err != nil {
+			conn.Close()
 			return nil, nil, nil, err
 		}
 		// What follows a successful answer to CONNECT is the tunnel, not a response body
